@@ -36,6 +36,7 @@ func isRangeIndex(v ssa.Value) bool {
 
 func checkC16(c *Ctx) {
 	c.explainf("C16 decides: the three places that marshal arguments for a compiled function (run-time preparation, compile-time generation, apply/map) decide laziness with the same predicate IsLazyCallArg(index), build the wrapper only on its true branch (source wrapper on the source routes, value wrapper on apply/map) and evaluate/push every other position exactly once; Go builtins never receive a wrapper; the laziness flags are written only where formals are declared, from the # sigil; positions in a variadic tail are never lazy; forcing returns the memo when forced and otherwise stores value and forced flag on every success path; the wrapper captures scope stack and current function and forcing installs exactly those inside a capture/restore bracket; substitute cannot reach force. It does not decide effect counts or order for concrete programs.")
+	c.checkArgsReadAtCall("C16-DOT")
 	isLazy := c.mustFn("C16-SITES", "SexpFunction.IsLazyCallArg")
 	newSrc := c.mustFn("C16-SITES", "NewSourceLazyArg")
 	newVal := c.mustFn("C16-SITES", "NewValueLazyArg")
@@ -434,4 +435,126 @@ func (c *Ctx) checkRegisteredBeforeBody(rule string) {
 				"the function is registered only after its body was compiled: while the body compiles, a self call finds no (or a stale) definition, so arguments for lazy formals are compiled eagerly and the compile-time and run-time marshalling disagree")
 		}
 	}
+}
+
+// checkArgsReadAtCall: C16-DOT. A dot-symbol (h.x) or a selector evaluates to
+// itself: it names a location, which a Go builtin such as = needs. A compiled
+// function binds its parameter to the value; if the location is only read when
+// the callee binds or consumes it, the read happens in the callee's scopes and
+// after the later arguments' side effects. The rule: (a) the value the run-time
+// argument preparation pushes for a compiled function has passed through
+// RValue in the preparation itself; (b) the value a forced lazy argument
+// memoises has passed through RValue before the caller's scopes are put away.
+func (c *Ctx) checkArgsReadAtCall(rule string) {
+	prep := c.mustFn(rule, "Zlisp.PrepareCallExprArgs")
+	force := c.mustFn(rule, "SexpLazyArg.Force")
+	rv := c.mustFn(rule, "Zlisp.RValue")
+	eval := c.mustFn(rule, "Zlisp.EvalCallExpression")
+	push := c.mustFn(rule, "Stack.PushExpr")
+	valF := c.mustField(rule, "SexpLazyArg", "Value")
+	userF := c.mustField(rule, "SexpFunction", "user")
+	if prep == nil || force == nil || rv == nil || eval == nil || push == nil || valF == nil || userF == nil {
+		return
+	}
+	throughRV := func(v ssa.Value) bool {
+		for _, leaf := range phiLeaves(v) {
+			if ex, ok := leaf.(*ssa.Extract); ok {
+				if call, ok := ex.Tuple.(*ssa.Call); ok && call.Call.StaticCallee() == rv {
+					return true
+				}
+			}
+		}
+		return false
+	}
+	// (a)
+	okA, posA := false, prep.Pos()
+	eachInstr(prep, func(b *ssa.BasicBlock, i int, in ssa.Instruction) {
+		call, ok := in.(*ssa.Call)
+		if !ok || call.Call.StaticCallee() != push || len(call.Call.Args) < 2 {
+			return
+		}
+		arg := call.Call.Args[1]
+		// the strict route: the pushed value comes from EvalCallExpression
+		fromEval := false
+		var walk func(v ssa.Value, d int)
+		seen := map[ssa.Value]bool{}
+		walk = func(v ssa.Value, d int) {
+			if seen[v] || d > 6 {
+				return
+			}
+			seen[v] = true
+			switch x := v.(type) {
+			case *ssa.Phi:
+				for _, e := range x.Edges {
+					walk(e, d+1)
+				}
+			case *ssa.Extract:
+				if cl, ok := x.Tuple.(*ssa.Call); ok {
+					if cl.Call.StaticCallee() == eval {
+						fromEval = true
+					}
+					if cl.Call.StaticCallee() == rv && len(cl.Call.Args) >= 2 {
+						walk(cl.Call.Args[1], d+1)
+					}
+				}
+			}
+		}
+		walk(arg, 0)
+		if !fromEval {
+			return
+		}
+		posA = call.Pos()
+		okA = throughRV(arg)
+	})
+	c.check(okA, rule, "Zlisp.PrepareCallExprArgs", "argument of a compiled function read at the call", posA,
+		"the evaluated argument passes through RValue before it is pushed for a compiled function",
+		"an evaluated argument is pushed as it is: a dot-symbol argument (h.x) reaches a compiled function as a bare symbol and is dereferenced when the callee binds its parameter, in the callee's scopes and after the side effects of the later arguments; (pair h.x (begin (hset h x: 50) 3)) gives (50 3), and a caller-local hash is not found")
+	// the RValue call must not be made for Go builtins, which take the location itself
+	if okA {
+		guarded := false
+		for _, site := range callsOf(prep, rv) {
+			if guardedBy(site.Block(), func(cond ssa.Value) (bool, bool) {
+				if _, ok := loadOfField(cond, userF); ok {
+					return true, false
+				}
+				return false, false
+			}) {
+				guarded = true
+			}
+		}
+		c.check(guarded, rule, "Zlisp.PrepareCallExprArgs", "locations kept for Go builtins", posA,
+			"the read is made only when the callee is not a Go builtin", "the read is also made for Go builtins, which need the location itself: (= h.x 3) would receive the old value instead of the place to assign")
+	}
+	// (b)
+	okB, nStore := true, 0
+	eachInstr(force, func(b *ssa.BasicBlock, i int, in ssa.Instruction) {
+		st, ok := in.(*ssa.Store)
+		if !ok {
+			return
+		}
+		fa, ok := st.Addr.(*ssa.FieldAddr)
+		if !ok || faField(fa) != valF {
+			return
+		}
+		// stores of a computed result (not the nil/empty short cuts)
+		if k, isConst := st.Val.(*ssa.Const); isConst && k.Value == nil {
+			return
+		}
+		sv := st.Val
+		if mi, ok := sv.(*ssa.MakeInterface); ok {
+			sv = mi.X
+		}
+		if ld, isLoad := sv.(*ssa.UnOp); isLoad {
+			if _, isGlobal := ld.X.(*ssa.Global); isGlobal {
+				return // lazy.Value = SexpNull
+			}
+		}
+		nStore++
+		// (the result is a phi of the value before and after the read; the side that skipped the read returns the error)
+		if !throughRV(st.Val) {
+			okB = false
+		}
+	})
+	c.check(nStore > 0 && okB, rule, "SexpLazyArg.Force", "forced value read in the scopes of the call", force.Pos(),
+		"the value memoised by Force has passed through RValue", "Force memoises what the argument expression evaluated to as it is: for a dot-symbol argument that is the symbol itself, which is then dereferenced wherever it is consumed, in the receiver's scopes")
 }
